@@ -650,4 +650,32 @@ def compose(template_text, repo_root, read_file):
             elif stack:
                 k, lab, lo = stack.pop()
                 regions.append({"kind": k.lower(), "label": lab, "line_lo": lo, "line_hi": n})
+    # closure literals without a contract annotation in the exec text of each extracted fn (outside spliced spec / ghost regions):
+    # Verus knows nothing about what such a closure does, so a proof that has to look inside one can only fail for lack of
+    # information. verus.py compares this list with the committed baseline (engine/closures_baseline.json): a failure in an item
+    # that GAINED an unannotated closure is reported as undecided, not as a violation.
+    for it in items:
+        if not it.get("is_fn"):
+            continue
+        body = "\n".join(out_lines[it["line_lo"] - 1:it["line_hi"]])
+        body = re.sub(r"/\*@(SPEC|LOOP|GHOST)-BEGIN.*?/\*@(?:SPEC|LOOP|GHOST)-END\*/", " ", body, flags=re.S)
+        body = re.sub(r"//[^\n]*", "", body)
+        found = []
+        for m in re.finditer(r"(?:(?<=[(,=])|(?<=[(,=]\s)|\bmove\s)\s*(?:move\s+)?\|([^|{}();]*)\|\s*(\S{0,8})", body):
+            nxt = m.group(2)
+            if nxt.startswith("->") or nxt.startswith("requires") or nxt.startswith("ensures"):
+                continue
+            # the closure's own text: parameters + body up to the first `,` `;` or unbalanced closing bracket at depth 0 (<= 80 chars)
+            j, depth, stop = m.end(1) + 1, 0, len(body)
+            k = j
+            while k < stop and k - j < 80:
+                ch = body[k]
+                if ch in "([{": depth += 1
+                elif ch in ")]}":
+                    if depth == 0: break
+                    depth -= 1
+                elif ch in ",;" and depth == 0: break
+                k += 1
+            found.append(re.sub(r"\s+", " ", "|" + m.group(1).strip() + "| " + body[j:k].strip()))
+        it["unannotated_closures"] = found
     return text, {"items": items, "rewrites": rewrites_log, "regions": regions}
